@@ -1,6 +1,6 @@
 (* Binary/Backends.v — the byte-level contract of IBinaryReader.Bytes, proved for the in-memory,
    io.Reader, io.ReadSeeker (= file) and io.ReaderAt backends over every healthy source: for every
-   partition of the stream into non-empty reads, Bytes(b, n, p) returns d[p : p+n] clipped at the end,
+   partition of the stream into reads (runs of empty reads shorter than 100), Bytes(b, n, p) returns d[p : p+n] clipped at the end,
    io.EOF exactly when p+n > len d, and leaves the backend able to serve the next request. *)
 From Verif Require Import Common.Base Common.Tactics Binary.Model Binary.Spec Binary.Lists.
 From Coq Require Import ZifyBool.
@@ -10,9 +10,9 @@ Definition good (d : list Z) (s : bstate) (p : Z) : Prop :=
   match s with
   | SBytes d' => d' = d
   | SMmap m => m = mmap_open d
-  | SReader r => r_rem r = skipz p d /\ positive_sched (r_sched r) /\
+  | SReader r => r_rem r = skipz p d /\ tame_sched (r_sched r) /\
                  r_fe r = E_EOF /\ r_pos r = p /\ r_size r = len d
-  | SSeeker k => k_data k = d /\ positive_sched (k_sched k) /\ k_fe k = E_EOF /\
+  | SSeeker k => k_data k = d /\ tame_sched (k_sched k) /\ k_fe k = E_EOF /\
                  k_size k = len d /\ k_closed k = false
   | SReaderAt a => a_data a = d /\ a_sched a = [] /\ a_fe a = E_EOF /\ a_size a = len d
   end.
@@ -36,25 +36,39 @@ Proof.
   - intros (_ & _ & _ & H). exact H.
 Qed.
 
-(* ---- the read loop over a stream that delivers non-empty chunks; io.EOF after or with the last bytes ------ *)
-Lemma positive_tl s : positive_sched s -> positive_sched (tl s).
-Proof. intros H. destruct s; [exact H|]. inversion H; assumption. Qed.
+(* ---- the read loop over a tame stream; io.EOF after or with the last bytes --------------------------------- *)
+Lemma run_ok_mono s : forall k k', run_ok k s -> k' <= k -> run_ok k' s.
+Proof.
+  induction s as [|c t IH]; intros k k' H Hk; cbn [run_ok] in *; [exact I|].
+  destruct (0 <? c); [exact H|]. destruct H as (H1 & H2). split; [lia|]. eapply IH; [exact H2|lia].
+Qed.
 
-Lemma read_loop_healthy ewl fuel : forall rem sched need acc,
-  positive_sched sched -> 0 <= need -> (Z.to_nat need < fuel)%nat ->
-  let r := read_loop fuel rem sched ewl E_EOF need acc in
+Lemma positive_tame s : positive_sched s -> tame_sched s.
+Proof.
+  unfold tame_sched. induction 1 as [|c t Hc _ IH]; cbn [run_ok]; [exact I|].
+  replace (0 <? c) with true by (symmetry; apply Z.ltb_lt; exact Hc). exact IH.
+Qed.
+
+Lemma run_ok_tame k s : 0 <= k -> run_ok k s -> tame_sched s.
+Proof. intros Hk H. unfold tame_sched. eapply run_ok_mono; eauto. Qed.
+
+Lemma read_loop_healthy ewl fuel : forall rem sched need empty acc k,
+  run_ok k sched -> 0 <= empty <= k -> empty < MAX_EMPTY -> 0 <= need ->
+  (Z.to_nat (100 * need + 100 - empty) < fuel)%nat ->
+  let r := read_loop fuel rem sched ewl E_EOF need empty acc in
   rd_out r = acc ++ firstz (Z.min need (len rem)) rem /\
   rd_rem r = skipz (Z.min need (len rem)) rem /\
-  positive_sched (rd_sched r) /\
+  tame_sched (rd_sched r) /\
   rd_err r = (if need <=? len rem then E_NIL else E_EOF).
 Proof.
-  induction fuel as [|f IH]; intros rem sched need acc Hs Hn Hf; [lia|].
+  unfold MAX_EMPTY.
+  induction fuel as [|f IH]; intros rem sched need empty acc k Hs He He100 Hn Hf; [lia|].
   pose proof (len_nonneg rem) as Hl.
   cbn [read_loop].
   destruct (Z.leb_spec need 0) as [H0|H0].
   { assert (need = 0) by lia. subst need. cbn zeta. cbn [rd_out rd_rem rd_sched rd_err].
     rewrite Z.min_l by lia. rewrite firstz_nonpos, skipz_nonpos, app_nil_r by lia.
-    zb. auto. }
+    zb. repeat split; auto. eapply run_ok_tame; [|exact Hs]. lia. }
   cbn zeta.
   destruct rem as [|x t].
   { cbn [src_read rd_out rd_rem rd_sched rd_err]. change (E_EOF =? E_EOF) with true.
@@ -62,50 +76,65 @@ Proof.
     replace (need =? 0) with false by (symmetry; apply Z.eqb_neq; lia). cbn [andb].
     change (E_EOF =? 0) with false. cbn [negb].
     cbn [rd_out rd_rem rd_sched rd_err]. rewrite Z.min_r by lia.
-    rewrite firstz_nonpos, skipz_nonpos by lia. zb. auto. }
+    rewrite firstz_nonpos, skipz_nonpos by lia. zb. repeat split; auto.
+    eapply run_ok_tame; [|exact Hs]. lia. }
   set (rem := x :: t) in *.
   assert (Hl1 : 1 <= len rem) by (unfold rem; rewrite len_cons; pose proof (len_nonneg t); lia).
   set (want := match sched with [] => need | c :: _ => Z.min c need end).
-  assert (Hw : 1 <= want <= need).
-  { unfold want. destruct sched as [|c s']; [lia|]. inversion Hs; subst. lia. }
+  assert (Hcase : (1 <= want <= need /\ run_ok 0 (tl sched)) \/
+                  (want <= 0 /\ k + 1 < 100 /\ run_ok (k + 1) (tl sched))).
+  { unfold want. destruct sched as [|c s']; [left; split; [lia|exact I]|].
+    cbn [run_ok tl] in *. destruct (Z.ltb_spec 0 c); [left; split; [lia|exact Hs]|right].
+    unfold MAX_EMPTY in Hs. destruct Hs. repeat split; auto; lia. }
   set (m := Z.min want (len rem)).
-  assert (Hm : 1 <= m /\ m <= need /\ m <= len rem) by (unfold m; lia).
   assert (Hsr : src_read rem sched ewl E_EOF need =
                 mkRd (firstz m rem) (skipz m rem) (tl sched)
                      (if (len (skipz m rem) =? 0) && ewl then E_EOF else E_NIL)).
   { unfold rem at 1. cbn [src_read]. fold rem. fold want. fold m. reflexivity. }
   rewrite Hsr. cbn [rd_out rd_rem rd_sched rd_err].
-  rewrite len_firstz_min by lia. rewrite (Z.min_l m (len rem)) by lia.
-  rewrite len_skipz_max by lia.
-  destruct ((Z.max 0 (len rem - m) =? 0) && ewl) eqn:Hlast.
-  - (* io.EOF arrives together with these bytes: they are the last ones *)
-    b2p. assert (Hml : m = len rem) by lia.
-    change (E_EOF =? E_EOF) with true. cbn [andb].
-    destruct (Z.eqb_spec (need - m) 0) as [Hdone|Hmore].
-    + cbn [rd_out rd_rem rd_sched rd_err].
-      replace (Z.min need (len rem)) with m by lia.
-      split; [reflexivity|]. split; [reflexivity|]. split; [apply positive_tl; exact Hs|].
-      replace (need <=? len rem) with true by (symmetry; apply Z.leb_le; lia). reflexivity.
-    + change (E_EOF =? 0) with false. cbn [negb]. cbn [rd_out rd_rem rd_sched rd_err].
-      replace (Z.min need (len rem)) with m by lia.
-      split; [reflexivity|]. split; [reflexivity|]. split; [apply positive_tl; exact Hs|].
-      replace (need <=? len rem) with false by (symmetry; apply Z.leb_gt; lia). reflexivity.
-  - change (E_NIL =? E_EOF) with false. cbn [andb]. change (E_NIL =? 0) with true. cbn [negb].
-    replace (m =? 0) with false by (symmetry; apply Z.eqb_neq; lia).
-    specialize (IH (skipz m rem) (tl sched) (need - m) (acc ++ firstz m rem)
-                   (positive_tl _ Hs) ltac:(lia) ltac:(lia)).
-    cbn zeta in IH. destruct IH as (I1 & I2 & I3 & I4).
-    rewrite len_skipz_max in * by lia.
-    replace (Z.min (need - m) (Z.max 0 (len rem - m))) with (Z.min need (len rem) - m) in * by lia.
-    split; [|split; [|split]].
-    + rewrite I1, <- app_assoc. f_equal.
-      rewrite firstz_skipz_add by lia. f_equal. lia.
-    + rewrite I2. rewrite skipz_skipz by lia. f_equal. lia.
-    + exact I3.
-    + rewrite I4. destruct (Z.leb_spec (need - m) (Z.max 0 (len rem - m))); destruct (Z.leb_spec need (len rem)); try reflexivity; lia.
+  destruct Hcase as [(Hw & Htl)|(Hw & Hk1 & Htl)].
+  - (* a read that delivers bytes *)
+    assert (Hm : 1 <= m /\ m <= need /\ m <= len rem) by (unfold m; lia).
+    rewrite len_firstz_min by lia. rewrite (Z.min_l m (len rem)) by lia.
+    rewrite len_skipz_max by lia.
+    destruct ((Z.max 0 (len rem - m) =? 0) && ewl) eqn:Hlast.
+    + (* io.EOF arrives together with these bytes: they are the last ones *)
+      b2p. assert (Hml : m = len rem) by lia.
+      change (E_EOF =? E_EOF) with true. cbn [andb].
+      destruct (Z.eqb_spec (need - m) 0) as [Hdone|Hmore].
+      * cbn [rd_out rd_rem rd_sched rd_err].
+        replace (Z.min need (len rem)) with m by lia.
+        split; [reflexivity|]. split; [reflexivity|]. split; [exact Htl|].
+        replace (need <=? len rem) with true by (symmetry; apply Z.leb_le; lia). reflexivity.
+      * change (E_EOF =? 0) with false. cbn [negb]. cbn [rd_out rd_rem rd_sched rd_err].
+        replace (Z.min need (len rem)) with m by lia.
+        split; [reflexivity|]. split; [reflexivity|]. split; [exact Htl|].
+        replace (need <=? len rem) with false by (symmetry; apply Z.leb_gt; lia). reflexivity.
+    + change (E_NIL =? E_EOF) with false. cbn [andb]. change (E_NIL =? 0) with true. cbn [negb].
+      replace (0 <? m) with true by (symmetry; apply Z.ltb_lt; lia).
+      specialize (IH (skipz m rem) (tl sched) (need - m) 0 (acc ++ firstz m rem) 0
+                     Htl ltac:(lia) ltac:(lia) ltac:(lia) ltac:(lia)).
+      cbn zeta in IH. destruct IH as (I1 & I2 & I3 & I4).
+      rewrite len_skipz_max in * by lia.
+      replace (Z.min (need - m) (Z.max 0 (len rem - m))) with (Z.min need (len rem) - m) in * by lia.
+      split; [|split; [|split]].
+      * rewrite I1, <- app_assoc. f_equal.
+        rewrite firstz_skipz_add by lia. f_equal. lia.
+      * rewrite I2. rewrite skipz_skipz by lia. f_equal. lia.
+      * exact I3.
+      * rewrite I4. destruct (Z.leb_spec (need - m) (Z.max 0 (len rem - m))); destruct (Z.leb_spec need (len rem)); try reflexivity; lia.
+  - (* an empty read: retried, the counter stays below 100 *)
+    assert (Hm : m <= 0) by (unfold m; lia).
+    rewrite (firstz_nonpos m rem), (skipz_nonpos m rem) by lia.
+    replace (len rem =? 0) with false by (symmetry; apply Z.eqb_neq; lia). cbn [andb].
+    change (E_NIL =? E_EOF) with false. cbn [andb]. change (E_NIL =? 0) with true. cbn [negb].
+    change (len (@nil Z)) with 0. change (0 <? 0) with false. cbv iota.
+    unfold MAX_EMPTY. replace (100 <=? empty + 1) with false by (symmetry; apply Z.leb_gt; lia).
+    rewrite app_nil_r.
+    apply (IH rem (tl sched) need (empty + 1) acc (k + 1) Htl); lia.
 Qed.
 
-Lemma loop_fuel_ok n : 0 <= n -> (Z.to_nat n < loop_fuel n)%nat.
+Lemma loop_fuel_ok n : 0 <= n -> (Z.to_nat (100 * n + 100 - 0) < loop_fuel n)%nat.
 Proof. unfold loop_fuel. lia. Qed.
 
 (* ---- Bytes(b, n, p) for n > 0 ------------------------------------------------------------------------ *)
@@ -173,8 +202,8 @@ Proof.
     cbn [bbytes any_backend]. unfold reader_bytes. rewrite Hpos. zb. cbn [negb].
     replace (bnil && false) with false by (destruct bnil; reflexivity).
     rewrite Hfe, Hrem.
-    pose proof (read_loop_healthy (r_ewl r) (loop_fuel n) (skipz p d) (r_sched r) n [] Hsch ltac:(lia)
-                  (loop_fuel_ok n ltac:(lia))) as HL.
+    pose proof (read_loop_healthy (r_ewl r) (loop_fuel n) (skipz p d) (r_sched r) n 0 [] 0 Hsch ltac:(lia)
+                  ltac:(unfold MAX_EMPTY; lia) ltac:(lia) (loop_fuel_ok n ltac:(lia))) as HL.
     cbn zeta in HL. destruct HL as (L1 & L2 & L3 & L4).
     cbn [lift]. eexists _, _. split; [reflexivity|]. cbn [br_data br_nil br_err].
     rewrite firstz_min in L1. cbn [app] in L1. rewrite skipz_min in L2.
@@ -195,8 +224,8 @@ Proof.
     cbn [bbytes any_backend]. unfold seeker_bytes. zb.
     replace (bnil && false) with false by (destruct bnil; reflexivity).
     rewrite Hcl. cbn [orb]. rewrite Hfe, Hdata.
-    pose proof (read_loop_healthy (k_ewl k) (loop_fuel n) (skipz p d) (k_sched k) n [] Hsch ltac:(lia)
-                  (loop_fuel_ok n ltac:(lia))) as HL.
+    pose proof (read_loop_healthy (k_ewl k) (loop_fuel n) (skipz p d) (k_sched k) n 0 [] 0 Hsch ltac:(lia)
+                  ltac:(unfold MAX_EMPTY; lia) ltac:(lia) (loop_fuel_ok n ltac:(lia))) as HL.
     cbn zeta in HL. destruct HL as (L1 & L2 & L3 & L4).
     cbn [lift]. eexists _, _. split; [reflexivity|]. cbn [br_data br_nil br_err].
     rewrite firstz_min in L1. cbn [app] in L1.
